@@ -93,9 +93,11 @@ Fixpoint enc (env : renv) (t : etree) (a : wire) (st : wst) {struct a} : wst :=
   | EStruct c sid false (Some dn) fc opts fts, WDictRef ref =>
     add_bits st c ([false] ++ uvc_write_bits ref)
   | EStruct c sid false (Some dn) fc opts fts, WDictFull (WStruct mask present fields) =>
+    (* the entry is counted after its fields are encoded, as the decoder does (a struct cannot
+       refer to the entry that is being added) *)
     let st := add_bits st c [true] in
-    let st := mkWst (w_cols st) (w_sdict st) (PM.add (dk dn) (w_tl st dn + 1) (w_tlen st)) (w_err st) in
-    body c fc opts fts (push_env env t) mask present fields st
+    let st := body c fc opts fts (push_env env t) mask present fields st in
+    mkWst (w_cols st) (w_sdict st) (PM.add (dk dn) (w_tl st dn + 1) (w_tlen st)) (w_err st)
   | EStruct c sid true _ fc opts fts, WOneof tag alt =>
     let st := add_bits st c (bits_of_N (oneof_bits fc) tag) in
     match alt with
